@@ -844,7 +844,7 @@ def check_T2(pid, tier, seed):
     cfgs = t2.CONC_CFGS_QUICK if tier == 'quick' else t2.CONC_CFGS_THOROUGH
     bins = t2.build_conc(cfgs)
     n = 360 if tier == 'quick' else 12000
-    if pid == 'C03': n = 240 if tier == 'quick' else 5000     # every run is also checked against the happens-before model
+    if pid == 'C03': n = 180 if tier == 'quick' else 5000     # every run is also checked against the happens-before model
     if broken: n *= 3
     keep = os.path.join(BUILD, 'cases_' + pid)
     jobs = []
@@ -862,11 +862,11 @@ def check_T2(pid, tier, seed):
         jobs.append((bins[c], sc, 's%d_l%d' % c, keep, (i % 4 == 0)))
     # systematic single-preemption sweeps over displacement programs (every scheduling point of the
     # inserting thread, the other threads run to completion there)
-    nsweep = {'C01': 9, 'C03': 15, 'C04': 3, 'C06': 2}[pid] * (1 if tier == 'quick' else (5 if pid == 'C03' else 12))
+    nsweep = {'C01': 9, 'C03': 12, 'C04': 3, 'C06': 2}[pid] * (1 if tier == 'quick' else (5 if pid == 'C03' else 12))
     nsw = 0
     for i in range(nsweep):
         c = cfgs[i % len(cfgs)]
-        for sc in gen_conc.gen_sweep(rng.getrandbits(48), c[0], c[1]) + (gen_conc.gen_sweep_layout(rng.getrandbits(48), c[0], c[1]) if i % 2 == 0 else []):
+        for sc in gen_conc.gen_sweep(rng.getrandbits(48), c[0], c[1], diff_stripes=(pid == 'C03' and c[0] <= 2), maxpoints=(70 if pid == 'C03' else 90)) + (gen_conc.gen_sweep_layout(rng.getrandbits(48), c[0], c[1]) if i % 2 == 0 else []):
             jobs.append((bins[c], sc, 'sweep_s%d_l%d' % c, keep, False)); nsw += 1
     # sweeps around a locked section that resizes / replaces the table
     if pid == 'C06':
@@ -874,6 +874,12 @@ def check_T2(pid, tier, seed):
             c = cfgs[i % len(cfgs)]
             for sc in gen_conc.gen_sweep_section(rng.getrandbits(48), c[0], c[1], pending=(i % 3 == 0)):
                 jobs.append((bins[c], sc, 'secsweep_s%d_l%d' % c, keep, False)); nsw += 1
+    # same-key sweeps: the other thread erases, resizes and inserts the key the first thread is displacing for
+    if pid == 'C01':
+        for i in range(4 if tier == 'quick' else 48):
+            c = cfgs[i % len(cfgs)]
+            for sc in gen_conc.gen_sweep(rng.getrandbits(48), c[0], c[1], dup_only=True, force_resize=True)[:60]:
+                jobs.append((bins[c], sc, 'dupsweep_s%d_l%d' % c, keep, False)); nsw += 1
     # two-preemption sweeps over a constructed layout (check-then-act windows in the displacement code)
     if pid in ('C01', 'C03', 'C04'):
         for i in range(1 if tier == 'quick' else 16):
@@ -893,7 +899,9 @@ def check_T2(pid, tier, seed):
                 jobs.append((vbins[c], sc, 'readsweep_s%d_l%d' % c, keep, False)); nsw += 1
     # data accesses against the happens-before model: C03 (race clause) and C01 (no stale observation)
     os.environ['VERIF_T2_MEM'] = {'C03': '1', 'C01': 'random'}.get(pid, '0')   # C01: the randomly scheduled runs only (the sweeps are covered by C03)
+    _t1 = time.time()
     res = t2.run_many(jobs)
+    if os.environ.get('VERIF_TIMING'): sys.stderr.write('T2 jobs=%d run_many=%.1fs since_start=%.1fs\n' % (len(jobs), time.time() - _t1, time.time() - t0))
     # C06 "on creation the locked_table exposes every stored element (pending deferred migration is finished
     # first) ... hands it back intact": sequential locked-section scripts (with and without helper threads)
     # against the model and the acceptor
